@@ -9,6 +9,7 @@
 import GIV.Lemmas.TxtarQuote
 import GIV.Lemmas.TxtarIdxLoop
 import GIV.Lemmas.TxtarIdxQuote
+import GIV.Lemmas.TxtarGoLoop
 
 namespace GIV.C14
 open GIV GIV.Txtar
@@ -123,5 +124,39 @@ example : quoteIdx (lit "a\n\nb\n") = .ok (lit ">a\n>\n>b\n") := by decide +kern
 theorem unquote_index_form_agrees : ∀ d, unquoteIdx d = unquote d := unquoteIdx_eq
 
 example : unquoteIdx (lit ">a\n>>b\n>\n") = .ok (lit "a\n>b\n\n") := by decide +kernel
+
+/-! ### tie to the Go code: the regenerated translation (see Props/C03, last section) -/
+
+open GIV.TxtarGo in
+/-- The translated `NeedsQuote` is the model's `needsQuote`. -/
+theorem go_NeedsQuote_agrees : ∀ d, GIV.Go.Txtar.NeedsQuote d = needsQuote d :=
+  have : FLit := ⟨rfl, rfl⟩; have : FNLM := ⟨rfl⟩
+  fun d => by rw [NeedsQuote_eq, needsQuoteIdx_eq]
+
+example : GIV.Go.Txtar.NeedsQuote (lit "a\n-- x --") = some true := by decide +kernel
+
+open GIV.TxtarGo in
+/-- The translated `Quote` / `Unquote` never panic and return what the model returns: on success
+the model's bytes and a nil error, otherwise no data and a non-nil error. -/
+theorem go_Quote_Unquote_agree : ∀ d,
+    (∃ g, GIV.Go.Txtar.Quote d = some g ∧ QOk (quote d) g) ∧
+    (∃ g, GIV.Go.Txtar.Unquote d = some g ∧ QOk (unquote d) g) :=
+  fun d => ⟨quoteIdx_eq d ▸ Quote_eq d, unquoteIdx_eq d ▸ Unquote_eq d⟩
+
+open GIV.TxtarGo in
+/-- `Unquote (Quote d) = d` for the translated functions, whenever `Quote` returns a nil error. -/
+theorem go_Unquote_Quote : ∀ d q, GIV.Go.Txtar.Quote d = some (q, none) →
+    GIV.Go.Txtar.Unquote q = some (d, none) := by
+  intro d q h
+  obtain ⟨g, hg, hq⟩ := (go_Quote_Unquote_agree d).1
+  rw [h] at hg
+  cases hg
+  have hq' := QOk_ok hq
+  obtain ⟨g2, hg2, hu⟩ := (go_Quote_Unquote_agree q).2
+  rw [unquote_quote d q hq'] at hu
+  simp only [QOk] at hu
+  rw [hg2, hu]
+
+example : GIV.Go.Txtar.Quote (lit "a\n-- x --\n") = some (lit ">a\n>-- x --\n", none) := by decide +kernel
 
 end GIV.C14
